@@ -401,6 +401,12 @@ def rule_B1(ctx):
         if not eff:
             continue
         n_eff += 1
+        # effects that cannot change the length (trusted bitarray table): whole-store setall/invert/reverse and the
+        # in-place bit-wise operators, which keep the length or raise
+        same = ('setall', 'invert', 'reverse', 'aug BitAnd', 'aug BitOr', 'aug BitXor')
+        if all(e[0] == 'inplace' and e[2].split(' (')[0] in same for e in eff):
+            r.ok(f'{c}.{name}', {'instance': f'{c}.{name}', 'verdict': 'length-preserving effects only', 'effects': sorted({e[2] for e in eff})})
+            continue
         writes_pos = bool(_pos_stores(f)) or any(isinstance(x, ast.Call) and ast.unparse(x.func) == 'self._clear' for x in own_walk(f.node))
         if f.cls in STREAMS and writes_pos:
             # on every path, an effect on self must be followed by a _pos update before the function returns normally
